@@ -47,7 +47,36 @@ def frame_digest(res: Any) -> Dict[str, Any]:
     d["fn"] = sorted(g.uuid for g in pf.fn_objects)
     d["tn"] = sorted(g.uuid for g in pf.tn_objects)
     d["metrics"] = metrics_digest(res.metrics_score)
+    d["ranges"] = range_quantities(res)
     return d
+
+
+def range_quantities(res: Any) -> Dict[str, Any]:
+    """The quantities the library's range filter compares with its bounds (|x|, |y| and planar distance relative to the
+    ego), obtained through the library's own transform registry of the frame, for every surviving estimate and ground truth.
+    Two renderings of one scene that disagree on one of them by more than the tolerance disagree on the decision for any
+    bound placed in the gap, so comparing them is the range-filter clause observed without having to hit the gap."""
+    from perception_eval.common.schema import FrameID
+
+    tf = res.frame_ground_truth.transforms
+    out: Dict[str, Any] = {}
+    objs = [("e", r.estimated_object) for r in res.object_results] + [("g", g) for g in res.frame_ground_truth.objects]
+    for kind, o in objs:
+        pos = getattr(o.state, "position", None)
+        if pos is None:
+            continue
+        try:
+            if o.frame_id == FrameID.BASE_LINK:
+                p = pos
+                dist = o.get_distance_bev()
+            else:
+                p = tf.transform((o.frame_id, FrameID.BASE_LINK), pos)
+                dist = o.get_distance_bev(tf)
+        except Exception as e:  # recorded: the comparator reports the difference
+            out[f"{kind}:{o.uuid}"] = f"{type(e).__name__}"
+            continue
+        out[f"{kind}:{o.uuid}"] = (abs(float(p[0])), abs(float(p[1])), float(dist))
+    return out
 
 
 def diff(a: Any, b: Any, tol: float, path: str = "") -> Optional[str]:
